@@ -38,11 +38,6 @@ def build(reg):
     T.append(fl)
     # ---- relay: upstream -> client
     PRE = proxyplugin.PP_PRE + [('no-pool', 'not self.flags.enable_conn_pool')]
-    reg.contract(SV, 'HttpProxyPlugin._tls_intercept_enabled', self_cls='HttpProxyPlugin', assumed=True, result='bool',
-                 modifies=[], raises={}, note='pure predicate over flags and plugin opt-outs (C11)')
-    reg.contract(SV, 'HttpProxyPlugin.handle_pipeline_response', params={'raw': 'mv'}, self_cls='HttpProxyPlugin',
-                 assumed=True, modifies=['self.pipeline_response'], raises={},
-                 note='bookkeeping only (A-PARSE)')
     CM = ['self.client.buffer', 'self.client._num_buffer']
     DELTA = 'self.upstream.rx[len(old(self.upstream.rx)):]'
     UM = ['self.upstream.buffer', 'self.upstream._num_buffer', 'self.upstream.wire',
